@@ -219,9 +219,11 @@ class MessageBatch:
             if future.done():
                 continue
             # If timestamp returned by broker is -1 it means we need to take
-            # the timestamp sent by user.
+            # the timestamp sent by user (each record has its own).
             if timestamp == -1:
-                timestamp = metadata.timestamp
+                record_timestamp = metadata.timestamp
+            else:
+                record_timestamp = timestamp
             offset = base_offset + metadata.offset
             future.set_result(
                 _record_metadata_class(
@@ -229,7 +231,7 @@ class MessageBatch:
                     partition,
                     tp,
                     offset,
-                    timestamp,
+                    record_timestamp,
                     timestamp_type,
                     log_start_offset,
                 )
